@@ -19,7 +19,18 @@ git checkout -q -- asynciojobs
 timeout 120 /venv/bin/python SEED/$M/demo.py > /tmp/seed-$PID-$M.demo0 2>&1; D0=$?
 rm -f tests/debug.dot tests/debug.svg
 echo "$PID $M: tests: $TESTS | demo with change exit=$D1 | demo without exit=$D0"
-if grep "^FAILED\|^ERROR" /tmp/seed-$PID-$M.tests | grep -v "test_nesting1" | grep -q .; then echo "REJECT: suite fails"; exit 1; fi
+if grep "^FAILED\|^ERROR" /tmp/seed-$PID-$M.tests | grep -v "test_nesting1" | grep -q .; then
+  # timing-based tests fail under CPU load: re-run the failed ones twice before rejecting
+  FAILED=$(grep "^FAILED" /tmp/seed-$PID-$M.tests | grep -v test_nesting1 | sed 's/^FAILED \([^ ]*\).*/\1/')
+  git apply $SRC/patch.diff
+  OK=1
+  for t in $FAILED; do
+    /venv/bin/python -m pytest -q -p no:cacheprovider --timeout=900 "$t" > /tmp/seed-$PID-$M.retest 2>&1 || /venv/bin/python -m pytest -q -p no:cacheprovider --timeout=900 "$t" > /tmp/seed-$PID-$M.retest 2>&1 || OK=0
+  done
+  git checkout -q -- asynciojobs; rm -f tests/debug.dot tests/debug.svg
+  if [ $OK -eq 0 ]; then echo "REJECT: suite fails ($FAILED)"; exit 1; fi
+  TESTS="$TESTS (failed under load, passed when re-run alone: $FAILED)"
+fi
 [ $D1 -ne 0 ] && [ $D0 -eq 0 ] || { echo "REJECT: demo does not discriminate"; exit 1; }
 mkdir -p $OUT
 cp $SRC/patch.diff $SRC/demo.py $OUT/
